@@ -344,6 +344,7 @@ func raceC19(out *bufio.Writer, st *Stats, r *Rng, tier string) {
 	kinds := []Kind{I16, F64, U8, F32, I64, U32}
 	w := NewWorld(out, st)
 	coldStartC19(w, st)
+	hugeSharedC19(w, st, r, tier, st.Seed)
 	for ci, c := range cfgs {
 		k := kinds[ci%len(kinds)]
 		dk := kinds[(ci+1)%len(kinds)]
@@ -351,6 +352,89 @@ func raceC19(out *bufio.Writer, st *Stats, r *Rng, tier string) {
 		runC19(w, st, r, k, dk, c.R, c.W, c.iters, c.procs, ci%2 == 1)
 	}
 	runtime.GOMAXPROCS(runtime.NumCPU())
+}
+
+// hugeSharedC19: one shared source of 2^22+5 samples (long enough for any parallel or block-wise conversion path),
+// converted by four goroutines at once into private destinations; the results must agree with a conversion done
+// alone, and nothing may race. Three of the nine conversion functions per run (rotating with the seed), all nine in
+// the thorough tier; typed code, so that the instrumented run stays short.
+func hugeShared[S, D signal.SignalTypes](conv func(*signal.Buffer[S], *signal.Buffer[D]) int, mk func(i int) S) int64 {
+	const G = 4
+	n := 1<<22 + 5
+	src := signal.Alloc[S](signal.Allocator{Channels: 1, Length: n, Capacity: n})
+	for i := 0; i < n; i++ {
+		src.SetSample(i, mk(i))
+	}
+	// the FIRST conversion of this size happens in all goroutines at once (whatever a long conversion sets up
+	// on first use is then set up concurrently); the reference is computed afterwards
+	var mism int64
+	var wg sync.WaitGroup
+	dsts := make([]*signal.Buffer[D], G)
+	for gi := 0; gi < G; gi++ {
+		wg.Add(1)
+		go func(gi int) {
+			defer wg.Done()
+			defer func() {
+				if e := recover(); e != nil {
+					atomic.AddInt64(&mism, 1)
+				}
+			}()
+			dst := signal.Alloc[D](signal.Allocator{Channels: 1, Length: n, Capacity: n})
+			if conv(src, dst) != n {
+				atomic.AddInt64(&mism, 1)
+			}
+			dsts[gi] = dst
+		}(gi)
+	}
+	wg.Wait()
+	ref := signal.Alloc[D](signal.Allocator{Channels: 1, Length: n, Capacity: n})
+	conv(src, ref)
+	for gi, dst := range dsts {
+		if dst == nil {
+			continue
+		}
+		for i := gi; i < n; i += 37 {
+			if dst.Sample(i) != ref.Sample(i) {
+				mism++
+				break
+			}
+		}
+		for i := n - 40; i < n; i++ {
+			if dst.Sample(i) != ref.Sample(i) {
+				mism++
+				break
+			}
+		}
+	}
+	return mism
+}
+
+func hugeSharedC19(w *World, st *Stats, r *Rng, tier string, seed uint64) {
+	runtime.GOMAXPROCS(runtime.NumCPU())
+	fl := func(i int) float32 { return float32(i%200-100) / 100 }
+	runs := []struct {
+		name string
+		f    func() int64
+	}{
+		{"SignedAsSigned", func() int64 { return hugeShared(signal.SignedAsSigned[int32, int16], func(i int) int32 { return int32(i%200-100) * 70000 }) }},
+		{"SignedAsFloat", func() int64 { return hugeShared(signal.SignedAsFloat[int16, float32], func(i int) int16 { return int16(i%200-100) * 300 }) }},
+		{"FloatAsSigned", func() int64 { return hugeShared(signal.FloatAsSigned[float32, int16], fl) }},
+		{"UnsignedAsUnsigned", func() int64 { return hugeShared(signal.UnsignedAsUnsigned[uint16, uint8], func(i int) uint16 { return uint16(i * 7) }) }},
+		{"SignedAsUnsigned", func() int64 { return hugeShared(signal.SignedAsUnsigned[int16, uint8], func(i int) int16 { return int16(i * 5) }) }},
+		{"UnsignedAsSigned", func() int64 { return hugeShared(signal.UnsignedAsSigned[uint8, int16], func(i int) uint8 { return uint8(i) }) }},
+		{"FloatAsFloat", func() int64 { return hugeShared(signal.FloatAsFloat[float32, float64], fl) }},
+		{"FloatAsUnsigned", func() int64 { return hugeShared(signal.FloatAsUnsigned[float32, uint8], fl) }},
+		{"UnsignedAsFloat", func() int64 { return hugeShared(signal.UnsignedAsFloat[uint8, float32], func(i int) uint8 { return uint8(i) }) }},
+	}
+	for i, x := range runs {
+		if tier != "thorough" && (i+int(seed))%3 != 0 {
+			continue
+		}
+		mism := x.f()
+		st.shape("huge-shared/%s", x.name)
+		fmt.Fprintf(w.out, "r19 readers=4 writers=0 iters=1 procs=%d huge=%s mismatches=%d\n", runtime.NumCPU(), x.name, mism)
+		st.lines++
+	}
 }
 
 // coldStartC19: the FIRST use of every instantiation of the conversions and readers happens from several
